@@ -46,7 +46,12 @@ func observe(in *graph.Instance) obsRun {
 		for _, p := range in.G.Points[c] {
 			var names []string
 			for _, s := range graph.Observe(in.G, p) {
-				names = append(names, s.String())
+				// by component: whether a proxy or the raw object arrives may depend on where a cycle is entered
+				n := s.TargetName(in.G)
+				if n == "" {
+					n = s.String()
+				}
+				names = append(names, n)
 			}
 			sort.Strings(names)
 			r.points[fmt.Sprintf("%d.%s", c.ID, p.Field.Name)] = names
@@ -182,6 +187,9 @@ func genField(t *rapid.T, provs []pop.ProvSpec) pop.FieldSpec {
 	if rapid.IntRange(0, 2).Draw(t, "optional") > 0 {
 		args += ",required=false"
 	}
+	if rapid.IntRange(0, 4).Draw(t, "funcpoint") == 0 {
+		return pop.FieldSpec{Type: typ, Tag: fmt.Sprintf(`func:"Comp,returns=*%s"`, args)}
+	}
 	return pop.FieldSpec{Type: typ, Tag: fmt.Sprintf(`wire:"%s"`, args)}
 }
 
@@ -222,15 +230,41 @@ func TestPopulations(t *testing.T) {
 	})
 }
 
+// PlainPP: a user post-processor that is NOT instantiation-aware (only before / after initialization).
+type PlainPP struct{}
+
+func (*PlainPP) Naming() string { return "plain-pp" }
+func (*PlainPP) PostProcessBeforeInitialization(c any, n string) (any, error) { return c, nil }
+func (*PlainPP) PostProcessAfterInitialization(c any, n string) (any, error)  { return c, nil }
+
 func TestGraphs(t *testing.T) {
 	kit.Rec.Rule(rule)
 	rapid.Check(t, func(t *rapid.T) {
 		s := graph.Gen(t, graph.GenOpts{MinNodes: 2, MaxNodes: 6, Variants: "NNRLPE", Aliases: true, Selfs: true})
+		// sometimes user post-processors take part: a plain one and one that proxies consistently at early-reference time
+		withPP := rapid.IntRange(0, 2).Draw(t, "withpp") == 0
+		wrapIdx := map[int]bool{}
+		if withPP {
+			for i, n := range s.Nodes {
+				if n.Variant != 'N' && rapid.Bool().Draw(t, "wrap") {
+					wrapIdx[i] = true
+				}
+			}
+		}
 		var runs []obsRun
 		for i := 0; i < reps(); i++ {
 			graph.DrawOrders(t, s)
 			s.NoPermut = i == reps()-1
 			in := s.Instantiate()
+			if withPP {
+				w := &graph.WrapPP{Plan: map[string]graph.WrapPlan{}}
+				for id := range wrapIdx {
+					nm, _ := model.NameOf(in.Comps[id])
+					// auto-proxy idiom: proxied at early-reference time if a cycle asks for it, otherwise after initialization
+					w.Plan[nm] = graph.WrapPlan{Early: graph.WrapNew, After: graph.WrapUnlessEarly}
+				}
+				in.Extra = append(in.Extra, w, &PlainPP{})
+			}
 			in.Run()
 			if in.Out.Panic != nil {
 				t.Fatalf("C10: start-up panicked: %v\n%s", in.Out.Panic, s.Shape())
